@@ -544,11 +544,11 @@ func (c *rtCluster) run(quickTier bool) {
 		rep.finding("C12", "no-progress-after-traffic", fmt.Sprintf("no two further heights were committed within 6s of calm running (top height %d -> %d)", h0, c.top()), c.replay(-1))
 	}
 	// accepted syncs must have taken effect (nodes still running)
-	time.Sleep(40 * time.Millisecond)
+	time.Sleep(500 * time.Millisecond)
 	syncMu.Lock()
 	for _, s := range syncs {
 		n := c.nodes[s.node]
-		if atomic.LoadInt32(&n.cancelled) == 1 || time.Since(s.at) < 300*time.Millisecond {
+		if atomic.LoadInt32(&n.cancelled) == 1 || time.Since(s.at) < 450*time.Millisecond {
 			continue
 		}
 		if h := uint64(n.lh.State().Height()); h <= s.hb {
